@@ -2,6 +2,9 @@ import Qentem.Model.FmtSpec
 import Qentem.Model.StrToNum
 import Qentem.Model.Round
 import Qentem.Proofs.StrToNumC11
+import Qentem.Proofs.StrToNumText
+import Qentem.Proofs.NumToStrIdent
+import Qentem.Props.C09
 /-! C11, parser half — interface definitions shared by the parser area (C09) and the formatter
 area (C10/C11).
 
@@ -51,5 +54,124 @@ inductive Text17 : List Nat → Prop
       allDigits ys → ys.getLast? ≠ some 48 → 1 + ys.length ≤ 17 → (es = [43] ∨ es = [45]) → allDigits ks →
       2 ≤ ks.length → ks.length ≤ 3 →
       Text17 (sg ++ d1 :: (if ys = [] then [] else 46 :: ys) ++ [101] ++ es ++ ks)
+
+
+open Qentem.Props.C09 Qentem.Proofs.NumToStr Qentem.Proofs.Ident
+
+theorem margin32_iff (num den : Nat) : Margin32 num den ↔ MarginPair (roundPair num den).1 (roundPair num den).2 := Iff.rfl
+
+/-- the sign prefix as a list -/
+def sgOf (neg : Bool) : List Nat := if neg then [45] else []
+
+theorem signed_eq (neg : Bool) (body : List Nat) : FmtSpec.signed neg body = sgOf neg ++ body := by
+  cases neg <;> simp [FmtSpec.signed, sgOf, FmtSpec.cMinus]
+
+theorem sgOf_cases (neg : Bool) : sgOf neg = [] ∨ sgOf neg = [43] ∨ sgOf neg = [45] := by
+  cases neg <;> simp [sgOf]
+
+theorem sgOf_dec (neg : Bool) : decide (sgOf neg = [45]) = neg := by cases neg <;> simp [sgOf]
+
+theorem sgOf_len (neg : Bool) : (sgOf neg).length = b2n neg := by cases neg <;> simp [sgOf, b2n]
+
+theorem allDigits_fmt {l : List Nat} (h : AllDigits l) : ∀ c ∈ l, FmtSpec.isDigit c = true := by
+  intro c hc; rw [fmt_isDigit_eq]; exact h c hc
+
+/-- `readBits64` of a signed decimal body that `readCore` understands -/
+theorem readBits64_signed (neg : Bool) (body : List Nat) (x : Nat) (rest : List Nat) (hbody : body = x :: rest)
+    (hx : 48 ≤ x ∧ x ≤ 57) (num den : Nat) (hden : 0 < den)
+    (hrc : readCore neg body = some (neg, num, den)) :
+    FmtSpec.readBits64 (FmtSpec.signed neg body) = some ((if neg then 2 ^ 63 else 0) + nearestMag num den) := by
+  have hnm : ∀ r, body ≠ 45 :: r := by
+    intro r h; rw [hbody] at h; simp only [List.cons.injEq] at h; omega
+  unfold FmtSpec.readBits64 FmtSpec.readBits
+  have h1 : FmtSpec.signed neg body ≠ FmtSpec.inf := by
+    rw [signed_eq, hbody]; cases neg <;> simp [sgOf, FmtSpec.inf] <;> omega
+  have h2 : FmtSpec.signed neg body ≠ FmtSpec.cMinus :: FmtSpec.inf := by
+    rw [signed_eq, hbody]; cases neg <;> simp [sgOf, FmtSpec.inf, FmtSpec.cMinus] <;> omega
+  rw [if_neg h1, if_neg h2, readDecimal_signed neg body hnm, hrc]
+  simp only
+  rw [nearestBits_eq neg num den hden]
+
+/-- the parser result as a double: a `Real` that consumed the whole text -/
+theorem parseDouble_real (t : List Nat) (p : Nat) (neg : Bool) (hp : p < 2 ^ 63)
+    (h : strToNum t 0 t.length = some ⟨.real, p ||| (if neg then 0x8000000000000000 else 0), t.length⟩) :
+    parseDouble t = some ((if neg then 2 ^ 63 else 0) + p) := by
+  unfold parseDouble
+  rw [h]
+  simp only [if_true]
+  rw [or_sign_add p neg hp]
+
+/-- **`%.17g` fixed notation with a fraction** (`ddd.ddd`): under the margin the parser returns the
+correctly rounded double. -/
+theorem parse_exact_fixed (neg : Bool) (d1 : Nat) (xs ys : List Nat) (h1 : isNonZeroDigit d1 = true)
+    (hxs : AllDigits xs) (hys : AllDigits ys) (hy0 : ys ≠ []) (hy48 : ys ≠ [48]) (hlen : xs.length + ys.length ≤ 17)
+    (hm : Margin32 (decVal (d1 :: xs ++ ys)) (10 ^ ys.length)) :
+    parseDouble (FmtSpec.signed neg (d1 :: xs ++ [46] ++ ys)) =
+      FmtSpec.readBits64 (FmtSpec.signed neg (d1 :: xs ++ [46] ++ ys)) := by
+  have hdig := isNonZeroDigit_isDigit h1
+  have hd1r : 48 ≤ d1 ∧ d1 ≤ 57 := by simp [isDigit] at hdig; omega
+  have hf : d1 ≠ 45 ∧ d1 ≠ 43 := by omega
+  have hall : AllDigits (d1 :: (xs ++ ys)) := by
+    intro y hy
+    simp only [List.mem_cons, List.mem_append] at hy
+    rcases hy with h | h | h
+    · subst h; exact hdig
+    · exact hxs y h
+    · exact hys y h
+  -- reference side
+  have hrc : readCore neg (d1 :: xs ++ [46] ++ ys) = some (neg, decVal (d1 :: xs ++ ys), 10 ^ ys.length) := by
+    have := readCore_plain neg (d1 :: xs) ys (by simp) (allDigits_fmt (fun y hy => by
+      rcases List.mem_cons.1 hy with h | h
+      · subst h; exact hdig
+      · exact hxs y h)) (allDigits_fmt hys)
+    simp only [hy0, if_false] at this
+    rw [← digitsValue_eq]
+    simpa using this
+  rw [readBits64_signed neg (d1 :: xs ++ [46] ++ ys) d1 (xs ++ [46] ++ ys) (by simp) hd1r _ _ (Nat.pow_pos (by decide)) hrc]
+  -- parser side
+  rw [signed_eq]
+  have hylen : 0 < ys.length := by cases ys with
+    | nil => exact absurd rfl hy0
+    | cons a b => simp
+  generalize ht : sgOf neg ++ (d1 :: xs ++ [46] ++ ys) = t
+  have htl : t.length = (sgOf neg).length + 1 + xs.length + 1 + ys.length := by
+    rw [← ht]; simp; omega
+  have hsl : (sgOf neg).length ≤ 1 := by rw [sgOf_len]; cases neg <;> simp [b2n]
+  have he : t.length < 2 ^ 32 := by omega
+  have hu : unitsAt t t.length 0 (sgOf neg ++ (d1 :: xs ++ [46] ++ ys)) := by rw [ht]; exact unitsAt_self t
+  have hu' := (unitsAt_append t t.length (sgOf neg) (d1 :: xs ++ [46] ++ ys) 0).1 hu
+  have hu1 : unitsAt t t.length 0 (sgOf neg ++ [d1]) :=
+    (unitsAt_append t t.length (sgOf neg) [d1] 0).2 ⟨hu'.1, hu'.2.1, trivial⟩
+  have hQ : 0 + (sgOf neg).length + 1 + xs.length + 1 + ys.length = t.length := by omega
+  have hstr : strToNum t 0 t.length = some ⟨.real, nearestMag (decVal (d1 :: xs ++ ys)) (10 ^ ys.length) |||
+      (if neg then 0x8000000000000000 else 0), t.length⟩ := by
+    rw [strToNum_after_sign t 0 t.length (sgOf neg) d1 (sgOf_cases neg) hu1 hf, sgOf_dec]
+    rw [afterSign_frac t t.length neg (0 + (sgOf neg).length) d1 xs ys he h1 hxs hys hy0 hy48 hlen hu'.2 (Or.inl hQ)]
+    rw [finishReal_end t t.length neg _ _ _ _ false true _ (by omega) (Or.inl hQ) (xs.length + 1 + ys.length) ys.length
+      (by simp only [b2n, Bool.not_false, Bool.and_self, if_true]
+          rw [sub32_sub32 _ _ 1 (by omega) (by omega)]; omega)
+      (by simp only [Bool.false_eq_true, if_false, if_true]
+          rw [sub32_sub32 _ _ 1 (by omega) (by omega)]; omega)
+      (by omega)]
+    have hne : netExp false 0 false ys.length = (ys.length, true) := by
+      unfold netExp; simp; omega
+    rw [hne, hQ]
+    have hv0 : 0 < decVal (d1 :: (xs ++ ys)) :=
+      Nat.lt_of_lt_of_le (Nat.pow_pos (by decide)) (decVal_ge d1 (xs ++ ys) h1)
+    have hvhi := decVal_lt_pow (d1 :: (xs ++ ys)) hall
+    have hv64 : decVal (d1 :: (xs ++ ys)) < 2 ^ 64 :=
+      Nat.lt_of_lt_of_le hvhi (Nat.le_trans (Nat.pow_le_pow_right (by decide) (by simp; omega)) (by decide : (10 : Nat) ^ 19 ≤ 2 ^ 64))
+    have hv10 : 10 ≤ decVal (d1 :: (xs ++ ys)) := by
+      have := decVal_ge d1 (xs ++ ys) h1
+      have h10 : 10 ^ 1 ≤ 10 ^ (xs ++ ys).length := Nat.pow_le_pow_right (by decide) (by simp; omega)
+      omega
+    have := realResult_exact neg (decVal (d1 :: (xs ++ ys))) (xs.length + 1 + ys.length) ys.length true t.length hv0 hv64
+      (by omega) (by omega) (by simp only [if_true]; omega)
+      (fun _ => by
+        have : ys.length / 27 = 0 := by omega
+        rw [this]; omega)
+      (by simp only [if_true]; exact hm)
+    simpa using this
+  exact parseDouble_real t _ neg (Nat.lt_of_le_of_lt (nearestMag_le_inf _ _) (by decide)) hstr
 
 end Qentem.Props.C11P
